@@ -184,3 +184,118 @@ Section Parse.
     bind (rebuild raws 0) (fun cells =>
     mapM (fun ri => nth_r cells (N.to_nat ri)) (h_root_list h)))).
 End Parse.
+
+(* ====================================================================================================
+   Boc.__init__ on str input, and the one_from_boc entry points of Cell / Slice / Builder.
+   Text is a list of character codes (code points).  Appended; nothing above is changed. *)
+From PTQ Require Model.Address.
+
+Inductive boc_input := InBytes (b : list N) | InStr (s : list N).
+
+(* Py_ISSPACE: '\t' '\n' '\v' '\f' '\r' ' ' *)
+Definition py_isspace (c : N) : bool := ((9 <=? c) && (c <=? 13)) || (c =? 32).
+
+(* bytes.fromhex(str) (CPython _PyBytes_FromHex): between bytes any run of ASCII whitespace is skipped
+   (also leading and trailing); a byte is two adjacent hex digits of either case; anything else - a lone
+   digit, whitespace inside a byte, any other character, any non-ASCII character - is ValueError (None) *)
+Fixpoint fromhex_ws (s : list N) : option (list N) :=
+  match s with
+  | [] => Some []
+  | c :: r =>
+      if py_isspace c then fromhex_ws r
+      else match Address.hex_val c, r with
+           | Some hi, l :: r' =>
+               match Address.hex_val l with
+               | Some lo => option_map (cons (hi * 16 + lo)) (fromhex_ws r')
+               | None => None
+               end
+           | _, _ => None
+           end
+  end.
+
+(* binascii's table_a2b_base64: the standard alphabet only ('-' and '_' are not in it) *)
+Definition b64_std_val (c : N) : option N :=
+  if (c =? 45) || (c =? 95) then None else Address.b64_val c.
+
+(* binascii.a2b_base64(data, strict_mode=False), the loop of binascii.c:
+   quad = quad_pos, left = leftchar, pads = pads; None = binascii.Error.
+   '=' : if quad_pos >= 2 and quad_pos + ++pads >= 4 the decoder stops and returns what it has (the rest of
+   the input is not looked at), otherwise the '=' is ignored; a character outside the alphabet is ignored;
+   an alphabet character resets pads and feeds the quad.  At the end of input quad_pos must be 0
+   ("Incorrect padding" / "number of data characters cannot be 1 more than a multiple of 4"). *)
+Fixpoint a2b_base64 (s : list N) (quad left pads : N) : option (list N) :=
+  match s with
+  | [] => if quad =? 0 then Some [] else None
+  | c :: r =>
+      if c =? 61 then
+        if 2 <=? quad then
+          if 4 <=? quad + (pads + 1) then Some [] else a2b_base64 r quad left (pads + 1)
+        else a2b_base64 r quad left pads
+      else
+        match b64_std_val c with
+        | None => a2b_base64 r quad left pads
+        | Some v =>
+            if quad =? 0 then a2b_base64 r 1 v 0
+            else if quad =? 1 then option_map (cons (left * 4 + v / 16)) (a2b_base64 r 2 (v mod 16) 0)
+            else if quad =? 2 then option_map (cons (left * 16 + v / 4)) (a2b_base64 r 3 (v mod 4) 0)
+            else option_map (cons (left * 64 + v)) (a2b_base64 r 0 0 0)
+        end
+  end.
+
+(* str.encode('ascii') succeeds *)
+Definition str_is_ascii (s : list N) : bool := forallb (fun c => c <? 128) s.
+
+(* Boc.__init__: bytes are taken as they are; a str is tried as hex, then (on ValueError) as base64.
+   base64.b64decode(str) first encodes the str to ASCII and raises a plain ValueError when it cannot: that
+   is not a binascii.Error, so it is not converted to BocError and escapes (EValue); binascii.Error
+   becomes BocError (EBoc). *)
+Definition boc_normalize (x : boc_input) : result (list N) :=
+  match x with
+  | InBytes b => Ok b
+  | InStr s =>
+      match fromhex_ws s with
+      | Some b => Ok b
+      | None =>
+          if negb (str_is_ascii s) then Err EValue
+          else match a2b_base64 s 0 0 0 with Some b => Ok b | None => Err EBoc end
+      end
+  end.
+
+(* bytes.hex() and base64.b64encode(bytes) as text *)
+Definition hex_text (b : list N) : list N := Address.bytes_hex b.
+Definition b64_text (b : list N) : list N := Address.b64encode false b.
+
+(* Cell.begin_parse: Slice(bits.copy(), refs.copy(), type_), seen as (remaining bits, remaining refs);
+   Cell.to_builder: CellError on an exotic cell, else Builder().store_cell(cell) *)
+Definition cell_begin_parse (k : kcell) : list bool * list kcell := (k_bits k, k_refs k).
+Definition cell_to_builder (k : kcell) : result (list bool * list kcell) :=
+  if is_exotic (k_ty k) then Err ECell
+  else if (4 <? length (k_refs k))%nat then Err EOther
+  else if (1023 <? length (k_bits k))%nat then Err EOverflow
+  else Ok (k_bits k, k_refs k).
+
+Section Entry.
+  Variable H : list N -> list N.
+
+  (* Cell.from_boc / Builder.from_boc: Boc(data).deserialize() *)
+  Definition from_boc_in (x : boc_input) : result (list kcell) :=
+    bind (boc_normalize x) (deserialize H).
+
+  (* Cell.one_from_boc: CellError when there is more than one root; cells[0] (IndexError when none) *)
+  Definition one_from_boc_in (x : boc_input) : result kcell :=
+    bind (from_boc_in x) (fun cells =>
+    match cells with
+    | [] => Err EIndex
+    | [c] => Ok c
+    | _ => Err ECell
+    end).
+
+  (* Slice.one_from_boc / Builder.one_from_boc: cells[0].begin_parse() / cells[0].to_builder();
+     no check on the number of roots: the first root is used *)
+  Definition first_root (x : boc_input) : result kcell :=
+    bind (from_boc_in x) (fun cells => match cells with [] => Err EIndex | c :: _ => Ok c end).
+  Definition slice_one_from_boc_in (x : boc_input) : result (list bool * list kcell) :=
+    rmap cell_begin_parse (first_root x).
+  Definition builder_one_from_boc_in (x : boc_input) : result (list bool * list kcell) :=
+    bind (first_root x) cell_to_builder.
+End Entry.
